@@ -85,6 +85,7 @@ class Ctx:
         self.hist = {}
         self.trusted = list(TRUSTED_BASE_COMMON)
         self.known = [k for k in load_known() if k.get("property") == pid and k.get("status", "open") == "open"]
+        self.replay_mode = False
 
     # ---- bookkeeping -------------------------------------------------
     @property
@@ -189,7 +190,9 @@ class Ctx:
             "wall_s": round(time.time() - self.t0, 2),
             "violations": len(lines),
         }
-        with open(os.path.join(EVIDENCE_DIR, self.pid + ".json"), "w") as fh:
+        # a replay run reports on one recorded case only: it must not replace the evidence of the full check
+        ev_path = os.path.join(REPLAY_DIR, self.pid, "last_replay_evidence.json") if self.replay_mode else os.path.join(EVIDENCE_DIR, self.pid + ".json")
+        with open(ev_path, "w") as fh:
             json.dump(ev, fh, indent=1)
         for l in lines:
             print(l, flush=True)
@@ -204,6 +207,7 @@ def run_property(pid, tier, seed, replay=None):
     try:
         mod = importlib.import_module("pv.props." + pid)
         if replay:
+            ctx.replay_mode = True
             with open(replay) as fh:
                 doc = json.load(fh)
             if hasattr(mod, "replay"):
